@@ -144,13 +144,15 @@ func genCase(r *sim.Rand, base []byte) C09Case {
 		case "bitflip":
 			m.Len = r.Intn(8)
 		case "hdrval":
-			m.Arg = sim.Pick(r, []string{"undisclosed-recipients:;", "a:;, b:;", "group: ;", ";", ";;", " ", "", "=", "\"", "<>", "@", "<@>", "a@", "multipart/mixed", "multipart/mixed; boundary=", "multipart/mixed; boundary=\"\"", "text/plain; charset=", "text/plain; =", "; name=x", "attachment; filename", "attachment; filename=;", "inline;;;", "base64;", "=?UTF-8?q?", "=?x?b?=?=", "Mon, 99 Foo 2000", "\x00"})
+			m.Arg = sim.Pick(r, []string{"undisclosed-recipients:;", "a:;, b:;", "group: ;", ";", ";;", " ", "", "=", "\"", "<>", "@", "<@>", "a@", "multipart/mixed", "multipart/mixed; boundary=", "multipart/mixed; boundary=\"\"", "text/plain; charset=", "text/plain; =", "; name=x", "attachment; filename", "attachment; filename=;", "inline;;;", "base64;", "=?UTF-8?q?", "=?x?b?=?=", "Mon, 99 Foo 2000", "\x00", "-1", "-46", "99999999999999999999", "0x10", "1e9"})
 		case "prefix":
 			// what storage and transfer tools put in front of a message: a byte-order mark (whole
 			// or cut), an mbox separator line, empty lines
 			m.Arg = sim.Pick(r, []string{"\xEF\xBB\xBF", "\xEF\xBB\xBF", "\xEF\xBB", "\xEF", "\xFE\xFF", "\xFF\xFE", "From sender@origin.example Thu Jan  1 00:00:00 1970\r\n", "\r\n", "\n\n", " "})
 		case "insert":
-			m.Arg = sim.Pick(r, []string{`"`, ";", "=", "; filename=", `; filename=""`, "; filename=x", "\r\n", "\r\n\r\n", "--", "boundary=", "; charset=", "=?UTF-8?q?", ": ", "\x00", "Content-Type: multipart/mixed; boundary=x\r\n"})
+			m.Arg = sim.Pick(r, []string{`"`, ";", "=", "; filename=", `; filename=""`, "; filename=x", "\r\n", "\r\n\r\n", "--", "boundary=", "; charset=", "=?UTF-8?q?", ": ", "\x00", "Content-Type: multipart/mixed; boundary=x\r\n",
+				// header fields with numbers in them, as other software writes them
+				"Content-Length: -1\r\n", "Content-Length: -9223372036854775808\r\n", "Content-Length: 99999999999999999999\r\n", "Content-Length: 0\r\n", "Lines: -5\r\n", "MIME-Version: -1.0\r\n"})
 		}
 		c.Muts = append(c.Muts, m)
 	}
